@@ -30,7 +30,7 @@ RESTS = ('4r', '8r', '2r', '1r', '16r', '8.r', '4.r', '2.r', '16.r', '32r', '1.r
          '48r', '0r', '00r', '128r', '64.r', '12.r', '6.r', '3.r', '24.r', '48.r')
 
 
-def build(M, sigset, ks, text_spine, split_m, nested, kinds, final, change_m=0, open_split=False, gcomments=0):
+def build(M, sigset, ks, text_spine, split_m, nested, kinds, final, change_m=0, open_split=False, gcomments=0, tight_join=False):
     """Rows of a score: M measures each opened by a barline, 2 data rows per measure.
     split_m: measure (1-based, 0 = none) in which spine 0 splits and re-joins (nested: splits twice, joins stepwise);
     kinds[m]: what spine 0 holds in measure m; change_m: measure before which a clef change row is inserted (tracked class);
@@ -84,6 +84,8 @@ def build(M, sigset, ks, text_spine, split_m, nested, kinds, final, change_m=0, 
             else:
                 rows.append(['*v', '*v'] + ['*'] * (ks - 1) + (['*'] if text_spine else []))
                 live_extra = 0
+                if tight_join:
+                    continue           # the join row stands directly in front of the next barline
         rows.append(data())
     if pending_join:
         rows.append(['*v', '*v'] + ['*'] * (ks - 1) + (['*'] if text_spine else []))
@@ -152,6 +154,13 @@ def _shapes(tier, tracked=False):
                             continue         # quick: every second combination of the plain shapes
                         for final in (0, 1):
                             out.append((M, sigset, ks, ts, split_m, nested, kinds, final))
+    # the join row directly in front of the next barline (no data row in between)
+    for M in (2, 3):
+        for sigset in (1, 3):
+            for ks, ts in ((2, 0), (1, 1), (1, 0)):
+                for split_m in (1, 2):
+                    for final in (0, 1):
+                        out.append((M, sigset, ks, ts, split_m, 0, ('notes',), final, 0, False, 0, True))
     # global comments directly after every barline / around the score
     for M in (2, 3):
         for ks, ts in ((1, 0), (2, 0), (1, 1)):
@@ -220,7 +229,22 @@ def ob_a(shape: int, a: int, b: int) -> bool:
     check(dsig == {k: v for k, v in model.items()}, lambda: f'full score: signature bookkeeping {dsig} differs from the text {model}')
     x = kp.dumps(doc, from_measure=a, to_measure=b, spine_types=['**kern'])
     check(SENTINEL not in x, 'tripwire')
-    return _check_excerpt(concrete(x), rows, model, dsig, concrete(a), concrete(b), 'excerpt')
+    ac, bc = concrete(a), concrete(b)
+    _check_excerpt(concrete(x), rows, model, dsig, ac, bc, 'excerpt')
+    return _again(doc, concrete(x), ac, bc, M)
+
+
+@native
+def _again(doc, x, a, b, M):
+    # the same and a longer excerpt from the same start, on the same Document object: nothing of the first one may stick
+    x2 = kp.dumps(doc, from_measure=a, to_measure=b, spine_types=['**kern'])
+    check(x2 == x, f'the excerpt {a}..{b} exported a second time from the same document differs: {x2!r} vs {x!r}')
+    if b < M:
+        x3 = kp.dumps(doc, from_measure=a, to_measure=M, spine_types=['**kern'])
+        wf = sp.well_formed(x3)
+        check(wf == '', f'excerpt {a}..{M} exported after {a}..{b} from the same document is not well formed ({wf}): {x3!r}')
+        check(x3.count('**kern') == x.count('**kern'), f'header material repeated in {x3!r}')
+    return True
 
 
 def ob_b(t: int, a: int, b: int) -> bool:
